@@ -64,13 +64,16 @@ structure Frame where
   dgs : List Dg
 deriving DecidableEq, Repr
 
-abbrev Futs := Rid → Option Fut
+/-- request name ↦ state of its future (`none`: no such call).  A structure, not a bare function, so
+that compiled code evaluates the guards of `settle`/`complete` once when the update is made. -/
+structure Futs where
+  get : Rid → Option Fut
 
-def Futs.set (fs : Futs) (r : Rid) (v : Fut) : Futs := fun x => if x = r then some v else fs x
+def Futs.set (fs : Futs) (r : Rid) (v : Fut) : Futs := ⟨fun x => if x = r then some v else fs.get x⟩
 
 /-- `if not future.done(): future.set_…(v)` -/
 def settle (fs : Futs) (r : Rid) (v : Fut) : Futs :=
-  if fs r = some .pending then fs.set r v else fs
+  if fs.get r = some .pending then fs.set r v else fs
 
 structure St where
   subs : List (Rid × Nat)               -- log: accepted submissions (request, payload length), in order
@@ -80,7 +83,7 @@ structure St where
   arrived : List (Frame × List UInt8)   -- wait-future has its result, `process_packet` not yet resumed
   sent : List Frame                     -- log: `transport.sendto` calls
 
-def init : St := ⟨[], [], fun _ => none, [], [], []⟩
+def init : St := ⟨[], [], ⟨fun _ => none⟩, [], [], []⟩
 
 inductive Ev where
   | submit (r : Rid) (len : Nat)
@@ -145,7 +148,7 @@ def short (d : List UInt8) (stop : Nat) : Bool := decide (d.length < stop + 2)
 
 /-- one round of the `for start, stop, future in dgrams` loop body -/
 def complete (d : List UInt8) (g : Dg) (fs : Futs) : Futs :=
-  if fs g.rid = some .pending then
+  if fs.get g.rid = some .pending then
     if wkcAt d g.stop = 0 then fs.set g.rid .ecError
     else fs.set g.rid (.result (slice d g.start g.stop))
   else fs
@@ -187,7 +190,7 @@ def deliver (f : Nat) (d : List UInt8) (s : St) : St :=
 
 def step (s : St) : Ev → St
   | .submit r len =>
-    if (s.futs r).isNone then
+    if (s.futs.get r).isNone then
       { s with subs := s.subs ++ [(r, len)], queue := s.queue ++ [(r, len)], futs := s.futs.set r .pending }
     else s      -- the harness names every call differently; a reused name is not a new call
   | .cancel r => { s with futs := settle s.futs r .cancelled }
